@@ -463,10 +463,17 @@ class Interp:
             return r
         if f in (max, min):
             vals = list(args[0]) if len(args) == 1 else list(args)
-            r = vals[0]
-            for x in vals[1:]:
-                c = self.cmp(ast.Gt() if f is max else ast.Lt(), x, r)
-                r = x if self.truth(c) else r
+            keyf = kw.get('key')
+            if not vals:
+                if 'default' in kw:
+                    return kw['default']
+                raise Raised(ValueError(f'{f.__name__}() iterable argument is empty'))
+            keys = [self.call(keyf, [v], {}) for v in vals] if keyf is not None else vals
+            r, rk = vals[0], keys[0]
+            for x, xk in zip(vals[1:], keys[1:]):
+                c = self.cmp(ast.Gt() if f is max else ast.Lt(), xk, rk)
+                if self.truth(c):
+                    r, rk = x, xk
             return r
         if f in (all, any):
             for x in args[0]:
